@@ -30,6 +30,8 @@ type Obs struct {
 	Marks   []uint64
 	Writes  int
 	Panic   interface{}
+	// what every harness hook that ran for this event was handed (only with RecordHookCalls)
+	HookCalls []HookCall
 	// what the filtered events of the prelude did (all of it should be nothing)
 	PreWrites int
 	PreLines  [][]byte
@@ -113,7 +115,7 @@ func (c *Case) Run() (obs Obs) {
 	defer zerolog.SetGlobalLevel(zerolog.DebugLevel)
 	now := c.Now
 	zerolog.TimestampFunc = func() time.Time { return now }
-	Marks = nil
+	Marks, HookCalls = nil, nil
 	w := &capture{}
 	resetNested()
 	defer func() {
@@ -122,6 +124,7 @@ func (c *Case) Run() (obs Obs) {
 		}
 		obs.Nested, obs.NestLines = nestedRuns, nestW.lines
 		obs.Marks = append([]uint64{}, Marks...)
+		obs.HookCalls = append([]HookCall{}, HookCalls...)
 		obs.Writes = len(w.lines)
 		if len(w.lines) > 0 {
 			obs.Written = true
@@ -162,7 +165,7 @@ func (c *Case) Run() (obs Obs) {
 	if c.Pre != nil && !c.Pre.Early {
 		pre()
 	}
-	Marks = nil // marshalers run while deriving the logger are not part of the event's trace
+	Marks, HookCalls = nil, nil // marshalers run while deriving the logger are not part of the event's trace
 	switch c.EntryUsed() {
 	case 2:
 		l.Write(append(append([]byte{}, c.Msg...), '\n'))
@@ -170,6 +173,8 @@ func (c *Case) Run() (obs Obs) {
 		l.Print(string(c.Msg))
 	case 4:
 		l.Printf("%s", c.Msg)
+	case 5:
+		l.Println(string(c.Msg[:len(c.Msg)-1])) // "in the manner of fmt.Println": the message is the text and a newline
 	default:
 		e := startEvent(l, c.Level, c.EntryUsed())
 		ApplyEvent(e, c.Ops)
@@ -183,7 +188,7 @@ func (c *Case) Run() (obs Obs) {
 }
 
 // EntryNames: the ways an event of a given level is started (Case.Entry)
-var EntryNames = []string{"WithLevel(level)", "the level's method (Trace..Error, Log)", "Logger.Write (io.Writer bridge)", "Logger.Print", "Logger.Printf"}
+var EntryNames = []string{"WithLevel(level)", "the level's method (Trace..Error, Log)", "Logger.Write (io.Writer bridge)", "Logger.Print", "Logger.Printf", "Logger.Println (the message ends in the newline Println adds)"}
 
 // EntryUsed: the entry point the case really goes through: an entry that does not exist for the case's level / fields
 // / finalizer falls back to WithLevel(level).
@@ -202,9 +207,16 @@ func (c *Case) EntryUsed() int {
 		if c.Level == 0 && plain {
 			return c.Entry
 		}
+	case 5:
+		if c.Level == 0 && plain && len(c.Msg) > 0 && c.Msg[len(c.Msg)-1] == '\n' {
+			return 5
+		}
 	}
 	return 0
 }
+
+// HasDiscard: is there a Discard() call anywhere in the fragment (marshalers and callbacks included)?
+func HasDiscard(ops []Op) bool { return hasDiscard(ops) }
 
 func startEvent(l zerolog.Logger, level, entry int) *zerolog.Event {
 	if entry == 1 {
@@ -369,13 +381,14 @@ func RunTree(s Settings, now time.Time, parent []Step, kids []Step, level int, o
 	out := make([]Obs, len(kids))
 	for i := range kids {
 		func() {
-			Marks = nil
+			Marks, HookCalls = nil, nil
 			before := len(w.lines)
 			defer func() {
 				if r := recover(); r != nil {
 					out[i].Panic = r
 				}
 				out[i].Marks = append([]uint64{}, Marks...)
+				out[i].HookCalls = append([]HookCall{}, HookCalls...)
 				out[i].Writes = len(w.lines) - before
 				if out[i].Writes > 0 {
 					out[i].Written = true
@@ -409,13 +422,14 @@ func RunOutputFork(s Settings, now time.Time, parent []Step, upd1, upd2 []Cop, l
 	out := make([]Obs, 2)
 	for i, lg := range []*zerolog.Logger{&b, &l} {
 		func() {
-			Marks = nil
+			Marks, HookCalls = nil, nil
 			before := len(w.lines)
 			defer func() {
 				if r := recover(); r != nil {
 					out[i].Panic = r
 				}
 				out[i].Marks = append([]uint64{}, Marks...)
+				out[i].HookCalls = append([]HookCall{}, HookCalls...)
 				out[i].Writes = len(w.lines) - before
 				if out[i].Writes > 0 {
 					out[i].Written = true
